@@ -148,14 +148,13 @@ Qed.
 Print Assumptions C09_gotoh_is_attained.
 
 (* The code model of the aligner (matrix fill + trace-back of align/aligner.go), for EVERY scoring scheme and EVERY pair
-   of non-empty sequences: what it returns is a valid local alignment (rows of one length, no column of two gaps, each
+   of sequences: what it returns is a valid local alignment (rows of one length, no column of two gaps, each
    row without its gaps is the substring of its sequence between the reported start and end) and
    matches + mismatches + gaps is the number of columns.  Unbounded (Proofs/TracebackProofs.v: shape of the trace
-   matrix, invariant of the trace-back loop).  Sequences must be non-empty: on an empty sequence the reported end 0 is
-   not an index of it (the CLI rejects such input before the aligner). *)
+   matrix, invariant of the trace-back loop).  An empty sequence is an error (no result). *)
 Theorem C09_aligner_returns_valid_alignment :
   forall sc s1 s2 r,
-  s1 <> [] -> s2 <> [] -> align_pair false sc s1 s2 = Some r ->
+  align_pair false sc s1 s2 = Some r ->
   valid_alignment s1 s2 (r_row1 r) (r_row2 r) (r_start1 r) (r_start2 r) (r_end1 r) (r_end2 r) /\
   r_matches r + r_mismatches r + r_gaps r = Z.of_nat (length (r_row1 r)) /\
   r_length r = Z.of_nat (length (r_row1 r)).
